@@ -605,7 +605,7 @@ pub fn check_main(tier: Tier) -> i32 {
             stuck.push(format!("site never reached: {}", site));
         } else if hits[1] == 0 {
             stuck.push(format!("never switched at: {}", site));
-        } else if hits[2] == 0 && !site.starts_with("op:") {
+        } else if hits[2] == 0 && !site.starts_with("op:") && super::egen::inject_crashes() {
             stuck.push(format!("never crashed at: {}", site));
         }
     }
@@ -648,8 +648,9 @@ pub fn check_main(tier: Tier) -> i32 {
         "scheduler": {"hook_points": ws.sched.points, "decisions": ws.sched.decisions, "context_switches": ws.sched.switches, "switches_inside_an_operation": ws.sched.switches_inside_op},
         "distinct_interleavings_all": traces.len(),
         "faults_fired": {
-            "crash_at_point": ws.sched.crashes,
-            "callback_panic+crash (ops that died)": ws.oracle.outcomes.get("Died").copied().unwrap_or(0),
+            "injected_unwinding_at_verif_points (off unless FQSIM_INJECT_CRASH: it models nothing that can happen to this crate, DESIGN 12.5)": ws.sched.crashes,
+            "callback_panic (renders left early by a failing user callback)": ws.oracle.outcomes.get("Died").copied().unwrap_or(0),
+            "renderer_or_alphabet_panic_as_outcome": ws.oracle.outcomes.get("Panic").copied().unwrap_or(0),
             "alphabet_panic (crate's own panic as outcome)": ws.oracle.probes.get("crate_panic_outcome(alphabet)").copied().unwrap_or(0),
             "err_result_encoded_data": ws.oracle.probes.get("err_encoded_data").copied().unwrap_or(0),
             "err_result_specified_version": ws.oracle.probes.get("err_specified_version").copied().unwrap_or(0),
